@@ -55,7 +55,7 @@ class C03(HistoryProperty):
     N_XPROC = {"quick": 120, "thorough": 3000}
 
     def gen_case(self, rng, tier):
-        cfg = gen.swarm_cfg(rng)
+        cfg = gen.swarm_cfg(rng, on=("dsclass",))
         spec = gen.prune(gen.gen_spec(rng, cfg))
         ops = gen_history(rng, cfg, spec)
         return {"cfg": cfg, "spec": spec, "ops": ops}
